@@ -94,6 +94,11 @@ func Hist(v *vrt.Ctx) {
 		w := &app.Sink{}
 		en.Flush(ctx, w)
 		v.Observe("out", w.S)
+		if apps.NeverEnds(which) && err == nil {
+			// nothing a client sends ends a session the application does not end
+			v.Assert(cont, "C08/client-input-does-not-end-the-session")
+			v.Assert(st.Flags[0]&(1<<state.FLAG_TERMINATE) == 0, "C08/client-input-does-not-end-the-session")
+		}
 		if len(st.ExecPath) == 0 {
 			// graceful end: the engine has unwound the session; the next
 			// request starts again at the entry node
